@@ -19,7 +19,7 @@ def gen_case(rng):
     return {'kind': 'reuseupd', 'deltas': [rng.choice([1, 2, 10, 100]) for _ in range(nports)],
             'depth': rng.choice([0, 1, 1, 2]), 'ticks': rng.choice([3, 4]), 'init': rng.choice([0, 5]),
             'glob': rng.random() < 0.3, 'leafports': rng.random() < 0.25,
-            'ordered': rng.random() < 0.3}
+            'ordered': rng.random() < 0.3, 'reverse_ports': rng.random() < 0.5}
 
 
 def corpus():
@@ -29,7 +29,10 @@ def corpus():
             {'kind': 'reuseupd', 'deltas': [1, 10], 'depth': 1, 'ticks': 4, 'init': 0, 'glob': False, 'ordered': True},
             # leaf ports wired straight to one variable directly below the root
             {'kind': 'reuseupd', 'deltas': [3, 10, 100], 'depth': 0, 'ticks': 3, 'init': 0, 'glob': False,
-             'leafports': True}]
+             'leafports': True},
+            # three ports meet two levels below the node they are wired to, listed in reverse
+            {'kind': 'reuseupd', 'deltas': [1, 2, 4], 'depth': 2, 'ticks': 3, 'init': 0, 'glob': False,
+             'reverse_ports': True}]
 
 
 def _nest(depth, leaf):
@@ -43,12 +46,16 @@ def run_impl(case):
     from vivarium.core.engine import Engine
     from vivarium.core.process import Process
     ports = [f'p{i}' for i in range(len(case['deltas']))]
+    deltas = list(case['deltas'])
+    if case.get('reverse_ports'):
+        # the ports are listed the other way round (schema, update and topology): the result is the same sum
+        ports, deltas = ports[::-1], deltas[::-1]
     depth = case['depth']
     wires = None
     if case.get('leafports'):
         # every port IS a variable, and all of them are wired to the top-level variable `x`
         schema = {p: {'_default': 0, '_emit': True} for p in ports}
-        UPD = {p: d for p, d in zip(ports, case['deltas'])}
+        UPD = {p: d for p, d in zip(ports, deltas)}
         init = {'x': case['init']}
         wires = {p: ('x',) for p in ports}
 
@@ -56,7 +63,7 @@ def run_impl(case):
             return state['x']
     elif case['glob']:
         schema = {p: {'*': _nest(depth, {'x': {'_default': 0, '_emit': True}})} for p in ports}
-        UPD = {p: {'c0': _nest(depth, {'x': d})} for p, d in zip(ports, case['deltas'])}
+        UPD = {p: {'c0': _nest(depth, {'x': d})} for p, d in zip(ports, deltas)}
         init = {'pool': {'c0': _nest(depth, {'x': case['init']})}}
 
         def read(state):
@@ -66,7 +73,7 @@ def run_impl(case):
             return node['x']
     else:
         schema = {p: _nest(depth, {'x': {'_default': 0, '_emit': True}}) for p in ports}
-        UPD = {p: _nest(depth, {'x': d}) for p, d in zip(ports, case['deltas'])}
+        UPD = {p: _nest(depth, {'x': d}) for p, d in zip(ports, deltas)}
         init = {'pool': _nest(depth, {'x': case['init']})}
 
         def read(state):
